@@ -8,6 +8,7 @@ import (
 
 	"github.com/llir/llvm/ir"
 	"github.com/llir/llvm/ir/constant"
+	"github.com/llir/llvm/ir/enum"
 	"github.com/llir/llvm/ir/metadata"
 	"github.com/llir/llvm/ir/types"
 
@@ -19,7 +20,7 @@ func init() { Registry["C17"] = Prop{Run: runC17, Replay: replayC17} }
 
 // c17node describes one metadata node of a graph.
 type c17node struct {
-	Kind     int   `json:"kind"`     // 0 tuple, 1 DIDerivedType (refs = baseType, scope), 2 tuple with an inline child holding the refs, 3 bare distinct tuple of the refs only (`distinct !{}` when empty)
+	Kind     int   `json:"kind"`     // 4 numbered !DIExpression (refers to nothing), 0 tuple, 1 DIDerivedType (refs = baseType, scope), 2 tuple with an inline child holding the refs, 3 bare distinct tuple of the refs only (`distinct !{}` when empty)
 	Distinct bool  `json:"distinct"` //
 	IDMode   int   `json:"id_mode"`  // 0 unassigned (-1), 1 explicit dense, 2 explicit sparse
 	Refs     []int `json:"refs"`     // indices of referenced nodes
@@ -81,6 +82,8 @@ func c17build(g c17graph) (*ir.Module, []metadata.Definition) {
 	for i, n := range g.Nodes {
 		id := metadata.MetadataID(c17explicitID(g, i))
 		switch n.Kind {
+		case 4:
+			defs[i] = &metadata.DIExpression{MetadataID: id, Fields: []metadata.DIExpressionField{enum.DwarfOpPlusUconst, metadata.UintLit(uint64(i))}}
 		case 1:
 			derived[i] = &metadata.DIDerivedType{MetadataID: id, Distinct: n.Distinct, Tag: 0x0f, Name: fmt.Sprintf("d%d", i), BaseType: metadata.Null}
 			defs[i] = derived[i]
@@ -124,14 +127,32 @@ func c17build(g c17graph) (*ir.Module, []metadata.Definition) {
 	m.NamedMetadataDefs["all"] = nm
 	// references from OUTSIDE the metadata sections, printed before them: attachments of a
 	// global, of a function and of a terminator.
-	first, last := defs[0].(metadata.MDNode), defs[len(defs)-1].(metadata.MDNode)
+	// (a numbered !DIExpression is not attached: the first / last node of another kind is)
 	zg := m.NewGlobalDef("zzg", constant.NewInt(types.I32, 0))
-	zg.Metadata = append(zg.Metadata, &metadata.Attachment{Name: "ref", Node: first})
 	zf := m.NewFunc("zzf", types.Void)
-	zf.Metadata = append(zf.Metadata, &metadata.Attachment{Name: "ref", Node: last})
 	ret := zf.NewBlock("").NewRet(nil)
-	ret.Metadata = append(ret.Metadata, &metadata.Attachment{Name: "ref", Node: first})
+	if a, b := c17attached(g); a >= 0 {
+		first, last := defs[a].(metadata.MDNode), defs[b].(metadata.MDNode)
+		zg.Metadata = append(zg.Metadata, &metadata.Attachment{Name: "ref", Node: first})
+		zf.Metadata = append(zf.Metadata, &metadata.Attachment{Name: "ref", Node: last})
+		ret.Metadata = append(ret.Metadata, &metadata.Attachment{Name: "ref", Node: first})
+	}
 	return m, defs
+}
+
+// c17attached gives the nodes the attachments of @zzg / @zzf / ret point to: the first and the
+// last node that is not a !DIExpression (-1: none).
+func c17attached(g c17graph) (first, last int) {
+	first, last = -1, -1
+	for i, n := range g.Nodes {
+		if n.Kind != 4 {
+			if first < 0 {
+				first = i
+			}
+			last = i
+		}
+	}
+	return
 }
 
 // c17expectedLine is the text the property prescribes for node i.
@@ -144,6 +165,8 @@ func c17expectedLine(g c17graph, ids []int64, i int) string {
 	}
 	ref := func(r int) string { return fmt.Sprintf("!%d", ids[r]) }
 	switch n.Kind {
+	case 4:
+		fmt.Fprintf(&b, "!DIExpression(DW_OP_plus_uconst, %d)", i)
 	case 0:
 		fmt.Fprintf(&b, "!{!\"n%d\"", i)
 		for _, r := range n.Refs {
@@ -279,6 +302,11 @@ func c17checkParsed(m *ir.Module, g c17graph, ids []int64, named []int) string {
 			if len(n.Refs) > 1 {
 				refs = append(refs, x.Scope)
 			}
+		case *metadata.DIExpression:
+			distinct = x.Distinct
+			if n.Kind != 4 {
+				return fmt.Sprintf("!%d parsed as DIExpression", ids[i])
+			}
 		default:
 			return fmt.Sprintf("!%d parsed as %T", ids[i], d)
 		}
@@ -346,11 +374,15 @@ func c17one(c *fw.Check, g c17graph, llvm bool) {
 		rep("api/named-metadata", "api", "named metadata does not list the nodes by their IDs", "", text)
 		return
 	}
-	for _, w := range []string{
-		fmt.Sprintf("@zzg = global i32 0, !ref !%d\n", ids[0]),
-		fmt.Sprintf("define void @zzf() !ref !%d {\n", ids[len(ids)-1]),
-		fmt.Sprintf("\tret void, !ref !%d\n", ids[0]),
-	} {
+	var attWant []string
+	if a, b := c17attached(g); a >= 0 {
+		attWant = []string{
+			fmt.Sprintf("@zzg = global i32 0, !ref !%d\n", ids[a]),
+			fmt.Sprintf("define void @zzf() !ref !%d {\n", ids[b]),
+			fmt.Sprintf("\tret void, !ref !%d\n", ids[a]),
+		}
+	}
+	for _, w := range attWant {
 		if !strings.Contains(text, w) {
 			rep("api/attachment-reference", "api", "an attachment of a global / function / terminator does not print the ID of the node it points to; expected `"+strings.TrimSpace(w)+"`", "", text)
 			return
@@ -425,7 +457,11 @@ func c17one(c *fw.Check, g c17graph, llvm bool) {
 	// (4) LLVM on a covering subset: canonical forms of model text and API-printed text agree.
 	if llvm && fw.HaveLLVM() {
 		var b strings.Builder
-		fmt.Fprintf(&b, "@zzg = global i32 0, !ref !%d\ndefine void @zzf() !ref !%d {\n  ret void, !ref !%d\n}\n", ids[0], ids[len(ids)-1], ids[0])
+		if a, bb := c17attached(g); a >= 0 {
+			fmt.Fprintf(&b, "@zzg = global i32 0, !ref !%d\ndefine void @zzf() !ref !%d {\n  ret void, !ref !%d\n}\n", ids[a], ids[bb], ids[a])
+		} else {
+			b.WriteString("@zzg = global i32 0\ndefine void @zzf() {\n  ret void\n}\n")
+		}
 		fmt.Fprintf(&b, "!all = !{%s}\n", strings.Join(wantNamed, ", "))
 		for _, l := range defLines {
 			b.WriteString(l + "\n")
@@ -458,10 +494,13 @@ func c17graphs(n int, thorough bool) []c17graph {
 		}
 		subsets = append(subsets, s)
 	}
-	for _, kind := range []int{0, 1, 2, 3} {
+	for _, kind := range []int{0, 1, 2, 3, 4} {
 		for _, distinct := range []bool{false, true} {
 			for idm := 0; idm < 3; idm++ {
 				for _, s := range subsets {
+					if kind == 4 && (distinct || len(s) > 0) {
+						continue // a numbered !DIExpression refers to nothing
+					}
 					if kind == 1 && len(s) > 2 {
 						continue
 					}
@@ -495,7 +534,7 @@ func c17graphs(n int, thorough bool) []c17graph {
 			_ = self // uniqued self references (`!0 = !{!0}`, the old-style loop ID) are valid text and are included
 			if !thorough && n >= 3 {
 				// n=3 quick: restrict kinds of later nodes to tuples (first node varies over all kinds).
-				if len(cur) > 0 && a.Kind != 0 {
+				if len(cur) > 0 && a.Kind != 0 && a.Kind != 4 {
 					continue
 				}
 			}
@@ -511,7 +550,7 @@ func runC17(c *fw.Check) {
 	if !c.Quick() {
 		c.SetBudget(45 * 60 * 1e9)
 	}
-	c.Rule = "ALL metadata graphs of <=3 numbered nodes: each node a tuple, a tuple with an inline child, a bare distinct tuple (`distinct !{}` when it refers to nothing) or a DIDerivedType, plain or distinct, with unassigned (-1), dense explicit or sparse explicit ID, referencing EVERY subset of the nodes (forward references, cycles, self references through distinct nodes), all listed in a named metadata node; (quick restricts the 2nd/3rd node of 3-node graphs to tuples). Each graph is built through the API and printed (IDs unique, explicit kept, unassigned = smallest unused in module order, every reference printed as its target's ID, against text built from a reference model), re-parsed (reference and definition are the same object, distinctness and inline-vs-numbered placement preserved), written as text in EVERY definition order with the named metadata split into one definition per operand (merged in textual order, printed in ascending ID order), and on a covering subset compared through llvm-as|llvm-dis. PLUS every reference POSITION (attachments of globals, declarations, definitions, instructions, terminators; metadata call arguments; named metadata; tuple fields; inline tuples in attachments; DI fields): all 2^10 assignments of the positions to two nodes x ID sets x distinctness x definitions before/after uses, each text parsed twice and once more with the two definitions exchanged in the same process: every reference must be the object in Module.MetadataDefs. PLUS the metadata productions of the generator catalogue (all 28 specialised kinds x field subsets x distinct x numbered/inline placement): unique IDs, no dangling printed reference, nodes without definition have no ID, inline placement preserved. distinct = graphs + reference-position modules (x text permutations as transitions)."
+	c.Rule = "ALL metadata graphs of <=3 numbered nodes: each node a tuple, a numbered !DIExpression, a tuple with an inline child, a bare distinct tuple (`distinct !{}` when it refers to nothing) or a DIDerivedType, plain or distinct, with unassigned (-1), dense explicit or sparse explicit ID, referencing EVERY subset of the nodes (forward references, cycles, self references through distinct nodes), all listed in a named metadata node; (quick restricts the 2nd/3rd node of 3-node graphs to tuples). Each graph is built through the API and printed (IDs unique, explicit kept, unassigned = smallest unused in module order, every reference printed as its target's ID, against text built from a reference model), re-parsed (reference and definition are the same object, distinctness and inline-vs-numbered placement preserved), written as text in EVERY definition order with the named metadata split into one definition per operand (merged in textual order, printed in ascending ID order), and on a covering subset compared through llvm-as|llvm-dis. PLUS every reference POSITION (attachments of globals, declarations, definitions, instructions, terminators; metadata call arguments; named metadata; tuple fields; inline tuples in attachments; DI fields): all 2^10 assignments of the positions to two nodes x ID sets x distinctness x definitions before/after uses, each text parsed twice and once more with the two definitions exchanged in the same process: every reference must be the object in Module.MetadataDefs. PLUS the metadata productions of the generator catalogue (all 28 specialised kinds x field subsets x distinct x numbered/inline placement): unique IDs, no dangling printed reference, nodes without definition have no ID, inline placement preserved. distinct = graphs + reference-position modules (x text permutations as transitions)."
 	var total int
 	for n := 1; n <= maxN; n++ {
 		gs := c17graphs(n, !c.Quick())
